@@ -858,6 +858,9 @@ pub fn plan_c07(tier: &str, seed: u64) -> Plan {
         if hyb {
             muts.push("reflavour".into());
         }
+        for k in 0..3 {
+            muts.push(format!("noncanon {k}"));
+        }
         // U0 authorised for every clause, U1 authorised for none of the first shapes' clauses
         let mut prelude = c12_prelude();
         prelude.truncate(9);
@@ -874,7 +877,11 @@ pub fn plan_c07(tier: &str, seed: u64) -> Plan {
             for (mi, m) in chunk.iter().enumerate() {
                 c.lines.push(format!("tamper_enc E0 E1 {m}"));
                 c.lines.push("decaps U0 E1".into());
-                c.expect.push((c.lines.len() - 1, ex(&[m.split(' ').next().unwrap()])));
+                if m.starts_with("noncanon") {
+                    c.expect.push((c.lines.len() - 1, ex(&["noncanon", "authorized-key"])));
+                } else {
+                    c.expect.push((c.lines.len() - 1, ex(&[m.split(' ').next().unwrap()])));
+                }
                 if !(m.starts_with("flip") || m.starts_with("xor2") || m.starts_with("addsub") || m.starts_with("rand_")) || mi % 8 == 0 {
                     c.lines.push("decaps U1 E1".into());
                     c.expect.push((c.lines.len() - 1, ex(&[m.split(' ').next().unwrap(), "unauthorized-key"])));
@@ -888,7 +895,7 @@ pub fn plan_c07(tier: &str, seed: u64) -> Plan {
         per_line: true,
         cases,
         exhaustive: thorough,
-        rule: "serialised encapsulations of five shapes (classic 1 / 3 targets incl. mixed flavours, hybridised 1 / 2 / 3 targets): every byte position (all in thorough; the first 120 and every 7th plus 200 random ones in quick for the long hybridised forms) x {bit 0, bit 7}, truncations, every pair of tag bytes changed with cancelling differences (same xor mask, +1 / -1), random pairs of bytes anywhere, whole tags and whole masked seeds replaced by random values (500 / 250 per component in quick, 20 000 / 8 000 in thorough: a comparison that looks at k bits of the tag lets one in 2^k through), and every structural operator (swap / drop / duplicate traps, swap / drop / duplicate components, swap only E or only F, splice a component / the traps / the tag / all components of a second honest encapsulation, flavour flip with re-chunking); each mutant is deserialised and decapsulated by the real code with an authorised and an unauthorised key; the specification demands no secret ever; distinct = distinct (mutant, outcome) lines".into(),
+        rule: "serialised encapsulations of five shapes (classic 1 / 3 targets incl. mixed flavours, hybridised 1 / 2 / 3 targets): every byte position (all in thorough; the first 120 and every 7th plus 200 random ones in quick for the long hybridised forms) x {bit 0, bit 7}, truncations, every pair of tag bytes changed with cancelling differences (same xor mask, +1 / -1), random pairs of bytes anywhere, whole tags and whole masked seeds replaced by random values (500 / 250 per component in quick, 20 000 / 8 000 in thorough: a comparison that looks at k bits of the tag lets one in 2^k through), and every structural operator (swap / drop / duplicate traps, swap / drop / duplicate components, swap only E or only F, splice a component / the traps / the tag / all components of a second honest encapsulation, flavour flip with re-chunking, a LEB128 field re-encoded with a redundant continuation byte); each mutant is deserialised and decapsulated by the real code with an authorised and an unauthorised key; the specification demands no secret ever; distinct = distinct (mutant, outcome) lines".into(),
     }
 }
 
